@@ -101,3 +101,37 @@ Definition plain_carrier (p : bytestr) (fill : nat) : list bytestr := [sentence_
 
 Lemma plain_opts_ok : opts_ok plain_opts = true.
 Proof. reflexivity. Qed.
+
+(* ------------------------------------------------------------------------------------------------ *)
+(* An executable check of a carrier WITNESS: given the cutting, the per-sentence options and the sequence id that a
+   generator claims to have used, decide whether [ss] is the carrier they describe.  The harness uses it (extracted)
+   to confirm that the sentences it builds are inside the family the theorem quantifies over.  Sound and complete
+   w.r.t. [is_carrier] (Proofs/CarrierProofs.v carrier_checkb_sound / carrier_checkb_complete). *)
+Definition bytestr_eqb (a b : bytestr) : bool := if list_eq_dec Z.eq_dec a b then true else false.
+
+Fixpoint remove_one (x : bytestr) (l : list bytestr) : option (list bytestr) :=
+  match l with
+  | [] => None
+  | y :: r => if bytestr_eqb x y then Some r
+              else match remove_one x r with Some r' => Some (y :: r') | None => None end
+  end.
+
+(* multiset equality of two lists of byte strings *)
+Fixpoint permb (l1 l2 : list bytestr) : bool :=
+  match l1 with
+  | [] => match l2 with [] => true | _ => false end
+  | x :: r => match remove_one x l2 with Some l2' => permb r l2' | None => false end
+  end.
+
+Definition part_okb (co : bytestr * carrier_opts) : bool :=
+  negb (Nat.eqb (length (fst co)) 0) && Nat.leb (length (fst co)) max_chunk && forallb is_armor (fst co) &&
+  opts_ok (snd co).
+
+Definition carrier_checkb (p : bytestr) (fill : nat) (parts : list (bytestr * carrier_opts)) (seq : option nat)
+           (ss : list bytestr) : bool :=
+  bytestr_eqb (concat (map fst parts)) p &&
+  Nat.leb 1 (length parts) && Nat.leb (length parts) 5 &&
+  forallb part_okb parts &&
+  Nat.leb fill 5 &&
+  match seq with Some s => Nat.leb s 9 | None => Nat.eqb (length parts) 1 end &&
+  permb ss (sentences_from (length parts) 1 seq fill parts).
